@@ -315,7 +315,7 @@ func execDialog(lines []string) string {
 	k := 0
 	for _, l := range strings.Split(out, "\n") {
 		f := strings.Fields(l)
-		if len(f) == 2 && f[0] == "bestmove" {
+		if len(f) >= 2 && f[0] == "bestmove" {
 			if k < len(expectLegal) && expectLegal[k] != nil && !expectLegal[k][f[1]] {
 				bestLegal = false
 			}
